@@ -130,6 +130,38 @@ def streams(rng, tier, ctx):
             H.finish(sim, drain=True, max_ticks=300)
             cid = "t%d" % i
             cases.append((cid, sim.ops)); meta[cid] = sim
+        # tail first, more than once: during a first phase every frame carrying an earlier fragment of a multi-fragment packet is
+        # lost and so is every acknowledgement, while the frame carrying the short last fragment arrives - so the last fragment is
+        # re-sent (in a new frame each time) and reaches the incomplete packet two, three, ... times; then the network is fair
+        u = 6 if tier == "quick" else 100
+        for i in range(u):
+            r = rng.fork()
+            it.op("=== genu%d" % i)
+            cfg = pick_cfg(r); cfg["fw"] = max(cfg["fw"], 16); cfg["allocA"] = cfg["allocB"] = 400000; cfg["bwA"] = cfg["bwB"] = 20_000_000
+            sim = Sim(r, cfg, inter=it)
+            ok = Net(latency=r.pick([0, 1_000_000]))
+            def warm_u(sim, ep, r=r):
+                if ep == "A" and sim.tick < 120:           # slow start has to open first: several frames per flush
+                    for _ in range(4):
+                        sim.send("A", r.below(2), r.pick([1, 3]), F)
+            sim.run(150, 5_000_000, ok, ok, warm_u)
+            t_fair = sim.time + r.pick([2_500, 4_000, 6_000]) * 1_000_000
+            def fate_u(sim, ep, idx, f, t_fair=t_fair):
+                if sim.time >= t_fair:
+                    return None
+                if ep == "B":
+                    return []
+                if f["kind"] == "D" and any(d["last"] > 0 and d["frag"] < d["last"] for d in f["dgs"]):
+                    return []
+                return None
+            sim.fate_fn = fate_u
+            for _ in range(r.range(1, 3)):
+                sim.send("A", r.below(2), r.pick([3, 3, 2]), r.range(2, 5) * F - r.pick([1, 100, 700, F - 1, 1348]))
+            sim.run((t_fair - sim.time) // 50_000_000 + r.range(10, 30), 50_000_000, ok, ok)
+            sim.fate_fn = None
+            H.finish(sim, drain=True, max_ticks=300)
+            cid = "u%d" % i
+            cases.append((cid, sim.ops)); meta[cid] = sim
         m = 6 if tier == "quick" else 150
         for i in range(m):
             r = rng.fork()
